@@ -1,0 +1,50 @@
+//go:build verif
+// +build verif
+
+package errbase
+
+import "sort"
+
+// VerifRegisteredKeys returns a read-only snapshot of the type keys that
+// currently have a decoder or an encoder registered, per registry.
+// Verification hook: compiled only with the `verif` build tag.
+func VerifRegisteredKeys() map[string][]string {
+	snap := func(add func(func(TypeKey))) []string {
+		var ks []string
+		add(func(k TypeKey) { ks = append(ks, string(k)) })
+		sort.Strings(ks)
+		return ks
+	}
+	return map[string][]string{
+		"leafDecoders": snap(func(f func(TypeKey)) {
+			for k := range leafDecoders {
+				f(k)
+			}
+		}),
+		"wrapperDecoders": snap(func(f func(TypeKey)) {
+			for k := range decoders {
+				f(k)
+			}
+		}),
+		"multiCauseDecoders": snap(func(f func(TypeKey)) {
+			for k := range multiCauseDecoders {
+				f(k)
+			}
+		}),
+		"leafEncoders": snap(func(f func(TypeKey)) {
+			for k := range leafEncoders {
+				f(k)
+			}
+		}),
+		"wrapperEncoders": snap(func(f func(TypeKey)) {
+			for k := range encoders {
+				f(k)
+			}
+		}),
+		"migrations": snap(func(f func(TypeKey)) {
+			for k, v := range backwardRegistry {
+				f(k + " <- " + v)
+			}
+		}),
+	}
+}
